@@ -886,7 +886,7 @@ def run_env_rowcol(case):
             else:
                 v = env_value(tn, [env] + rest, e0)
                 errs.append(check_value(v, ref, mag, entry="env:" + side, mode=mode, key_offset=abs(i - (lo if side.endswith("min") else hi)),
-                                        equalize=repr(kw.get("equalize_norms", False)), dense=bool(kw.get("dense")),
+                                        eq=bool(kw.get("equalize_norms")), dense=bool(kw.get("dense")),
                                         layered=lat.get("layers", 1) == 2))
     if not binding and entry in ("x", "y"):
         # the two-sided statement of the docstring: envs[min, i] | row i | envs[max, i]
@@ -896,7 +896,7 @@ def run_env_rowcol(case):
             row = [t for t in tn if any(c[ax] == i for c in site_coords(t))]
             v = env_value(tn, [a, b] + row, e0)
             errs.append(check_value(v, ref, mag, entry="env-sandwich:" + entry, mode=mode, row=i,
-                                    equalize=repr(kw.get("equalize_norms", False)), dense=bool(kw.get("dense")),
+                                    eq=bool(kw.get("equalize_norms")), dense=bool(kw.get("dense")),
                                     layered=lat.get("layers", 1) == 2))
     cls = lat_classes(lat) + ["mode=" + mode, "entry=" + entry, "binding" if binding else "exact"]
     cls += ["opt:" + k for k in sorted(case["opts"])] + (["subrange"] if case.get("xrange") or case.get("yrange") else [])
@@ -958,8 +958,8 @@ def run_env_plaq(case):
             raise Violation("plaquette-env-holds-plaquette", key=[i0, j0], mode=mode)
         v = env_value(tn, [env] + plq, e0)
         errs.append(check_value(v, ref, mag, entry="env:plaquette", mode=mode, bsz=[xb, yb],
-                                equalize=repr(kw.get("equalize_norms", False)), layered=lat.get("layers", 1) == 2,
-                                cyclic=bool(lat.get("cx") or lat.get("cy")), first=kw.get("first_contract"),
+                                eq=bool(kw.get("equalize_norms")), layered=lat.get("layers", 1) == 2,
+                                first=kw.get("first_contract"),
                                 second_dense=kw.get("second_dense")))
     cls = lat_classes(lat) + ["mode=" + mode, "bsz=%dx%d" % (xb, yb), "nplaq=%d" % min(len(want), 9)]
     cls += ["opt:%s=%s" % (k, kw[k]) if k in ("first_contract", "second_dense") else "opt:" + k for k in sorted(case["opts"])]
@@ -1293,7 +1293,7 @@ def s_side3d(draw, tier):
         o.pop("equalize_norms", None)  # private helper: says nothing about where the stripped exponent goes (it is dropped)
     if gauged3d(mode, o):
         lat["kind"] = "gauss"
-    return {"lat": lat, "mode": mode, "from_which": fw, "opts": o, "spelling": draw(st.sampled_from(["plain", "inplace"])),
+    return {"lat": lat, "mode": mode, "from_which": fw, "opts": o, "spelling": draw(st.sampled_from(["plain", "inplace", "inplace"])),
             "entry": entry, "nplanes": L[fw[0]] if (full or L[fw[0]] == 2) and mode not in BP_MODES else L[fw[0]] - 1,
             "binding": draw(st.integers(0, 2)) == 0, "chi_frac": draw(st.floats(0.0, 1.0)),
             "auto_side": draw(st.integers(0, 3)) == 0}
@@ -1320,6 +1320,8 @@ def run_side3d(case):
     if entry == "from":
         fn = tn.contract_boundary_from_ if case["spelling"] == "inplace" else tn.contract_boundary_from
         res = fn(rng["x"], rng["y"], rng["z"], fw, max_bond=chi, cutoff=cutoff, mode=mode, **o)
+        if case["spelling"] == "inplace" and res is None:
+            res = tn  # nothing promises a return value for the in-place spelling: the receiver holds the result
         if not isinstance(res, qtn.TensorNetwork):
             raise Violation("returned-none" if res is None else "not-a-network", mode=mode, spelling=case["spelling"], entry="3d:from")
         if case["spelling"] == "inplace" and res is not tn:
@@ -1570,23 +1572,35 @@ def s_compressed_opts(draw, around=False):
 
 @st.composite
 def s_compressed(draw, tier):
-    g = draw(s_graph(tier, min_n=4, extra=4))
+    g = draw(s_graph(tier, min_n=4, extra=5, dims=(1, 2, 2, 2, 3, 3)))
     o = draw(s_compressed_opts())
     if draw(st.integers(0, 2)) == 0:
         o["strip_exponent"] = True
     return {"g": g, "opts": o, # (the compressed presets 'greedy-span' / 'greedy-compressed' are left out: cotengra 0.8.2's GreedySpan.get_ssa_path
             # raises ValueError on graphs with a size-1 bond, which is not quimb's code)
             "optimize": draw(st.sampled_from(["path", "path", "path", "tree", "tree", "greedy", "auto"])),
-            "pseed": draw(st.integers(0, 10**6)), "chi": draw(st.sampled_from([1, 2, 2, 3, 4, 4, 6, 8, 16])),
+            "pseed": draw(st.integers(0, 10**6)), "chi": draw(st.sampled_from([1, 2, 2, 3, 4, 4, 6, 8, 16, None, None, None, None])),
             "cutoff0": draw(st.sampled_from([True, True, True, False])), "inplace": draw(st.sampled_from([False, False, True])),
             "gauges": draw(st.sampled_from([None, None, None, True])), "order_out": draw(st.booleans())}
+
+
+TINY_CUTOFF = 1e-15
+
+
+def chi_and_cutoff(case):
+    """(max_bond, cutoff).  With max_bond=None the scheme compresses *every* neighbouring pair it visits, governed by
+    the cutoff alone; cutoff=0.0 switches compression off altogether, so the untruncated run of that branch uses a
+    cutoff at the rounding level (1e-15 relative: what it discards is below the tolerance by nine orders)."""
+    if case["chi"] is None:
+        return None, TINY_CUTOFF
+    return int(case["chi"]), (0.0 if case["cutoff0"] else 1e-10)
 
 
 class CompressLog:
     """Callbacks handed to the scheme: what every compression saw before, and the bond it left behind."""
 
     def __init__(self, chi):
-        self.chi = chi
+        self.chi = float("inf") if chi is None else chi
         self.events = 0
         self.lossless = True   # every compression so far had min(bond, rest of left, rest of right) <= chi
         self.worst = 0
@@ -1620,8 +1634,7 @@ def run_compressed(case):
     ref, mag = reference(tn, out)
     n = tn.num_tensors
     o = dict(case["opts"])
-    chi = int(case["chi"])
-    cutoff = 0.0 if case["cutoff0"] else 1e-10
+    chi, cutoff = chi_and_cutoff(case)
     log = CompressLog(chi)
     opt = case["optimize"]
     if opt == "path":
@@ -1637,7 +1650,12 @@ def run_compressed(case):
         if o.get("compress_mode") in ("virtual-tree", "full-bond", "local-fit"):
             o.pop("compress_mode")  # documented: with gauges the 'basic' mode is used
     if o.get("compress_mode") == "local-fit":
-        cutoff = 0.0  # this mode ignores a cutoff (and warns)
+        if chi is None:
+            o.pop("compress_mode")  # fitting needs a target bond size
+        else:
+            cutoff = 0.0  # this mode ignores a cutoff (and warns)
+    if o.get("compress_mode") == "full-bond" and chi is None:
+        o.pop("compress_mode")  # similarity_compress needs a target bond size
     kw = dict(output_inds=out) if out else {}
     # (local-fit solves ALS normal equations: LinAlgError on a rank deficient local environment is an accepted rejection)
     with rejecting(*((np.linalg.LinAlgError,) if o.get("compress_mode") == "local-fit" else ()), tag="als-singular:"):
@@ -1649,20 +1667,21 @@ def run_compressed(case):
         raise Violation("bond-cap", size=log.violation, cap=chi, **info)
     got = denote(res, out)
     e = 0.0
-    exact = log.lossless and cutoff == 0.0 and not case["gauges"] and o.get("compress_mode") != "local-fit"
+    exact = log.lossless and cutoff <= TINY_CUTOFF and not case["gauges"] and o.get("compress_mode") != "local-fit"
     if exact:
         e = check_value(got, ref, mag, **info)
     elif not np.all(np.isfinite(got)):
         raise Violation("non-finite", **info)
     cls = graph_classes(g) + ["opt=" + opt, "events=%d" % min(log.events, 5), "exact" if exact else "truncating",
-                              "mode=" + o.get("compress_mode", "auto"), "saturated" if log.worst == chi else "below"]
+                              "mode=" + o.get("compress_mode", "auto"), "saturated" if log.worst == chi else "below",
+                              "max_bond=None" if chi is None else "max_bond=int"]
     cls += ["opt:" + k for k in sorted(o)]
     return {"nt": log.events > 0, "cls": cls, "err": e}
 
 
 @st.composite
 def s_around_ag(draw, tier):
-    g = draw(s_graph(tier, min_n=4, extra=4))
+    g = draw(s_graph(tier, min_n=4, extra=5, dims=(1, 2, 2, 2, 3, 3)))
     o = draw(s_compressed_opts(around=True))
     o.pop("compress_mode", None)
     if draw(st.integers(0, 3)) == 0:
@@ -1673,7 +1692,8 @@ def s_around_ag(draw, tier):
         o.pop("equalize_norms", None)
     return {"g": g, "opts": o, "entry": draw(st.sampled_from(["around", "around", "around_", "center", "corner"])),
             "targets": draw(st.lists(st.integers(0, 8), min_size=1, max_size=2, unique=True)),
-            "chi": draw(st.sampled_from([1, 2, 2, 3, 4, 4, 6, 8, 16])), "cutoff0": draw(st.sampled_from([True, True, True, False]))}
+            "chi": draw(st.sampled_from([1, 2, 2, 3, 4, 4, 6, 8, 16, None, None, None, None])),
+            "cutoff0": draw(st.sampled_from([True, True, True, False]))}
 
 
 def run_around_ag(case):
@@ -1683,8 +1703,7 @@ def run_around_ag(case):
     outer = graph_outer(g)
     ref, mag = reference(tn, outer)
     o = dict(case["opts"])
-    chi = int(case["chi"])
-    cutoff = 0.0 if case["cutoff0"] else 1e-10
+    chi, cutoff = chi_and_cutoff(case)
     log = CompressLog(chi)
     entry = case["entry"]
     cb = dict(callback_pre_compress=log.pre, callback_post_compress=log.post)
@@ -1702,12 +1721,12 @@ def run_around_ag(case):
         raise Violation("bond-cap", size=log.violation, cap=chi, **info)
     got = denote(res, outer)
     e = 0.0
-    exact = log.lossless and cutoff == 0.0
+    exact = log.lossless and cutoff <= TINY_CUTOFF
     if exact:
         e = check_value(got, ref, mag, **info)
     elif not np.all(np.isfinite(got)):
         raise Violation("non-finite", **info)
-    cls = graph_classes(g) + ["entry=" + entry, "events=%d" % min(log.events, 5), "exact" if exact else "truncating",
+    cls = graph_classes(g) + ["entry=" + entry, "max_bond=None" if chi is None else "max_bond=int", "events=%d" % min(log.events, 5), "exact" if exact else "truncating",
                               "saturated" if log.worst == chi else "below"] + ["opt:" + k for k in sorted(o)]
     return {"nt": log.events > 0, "cls": cls, "err": e}
 
